@@ -41,6 +41,7 @@ class Contract:
     post_on_raise: dict = field(default_factory=dict)  # exception -> [(label, expr)] that must hold when it is raised
     raises_bounds: dict = field(default_factory=dict)  # exception -> (must_cond, may_cond): must => raised => may
     exports: dict = field(default_factory=dict)      # spec term -> ghost expr: skolem function defined by a ghost at exit
+    sequel: dict = None        # {'qual', 'env': (engine, env_after, result) -> env}: run a second function afterwards (encode; parse)
     lists: dict = field(default_factory=dict)       # local name (or 'result') -> {field: sort}: lists built by the function
     defs: list = field(default_factory=list)        # definitional equations of spec constants (assumed, never obliged)
     native_ghost: dict = field(default_factory=dict)  # ghost name -> python expr over inputs/result (native replay)
